@@ -439,6 +439,24 @@ func runProperty(eng *Engine, prop, tier string, opts solveOpts, evidence, repla
 		}
 		exit = 1
 	}
+	// bounded stand-ins: functions that carry an assumed contract because they are outside the
+	// verifier's reach are exercised on the real code on every run (stated bound, never counted as proof)
+	var standInNotes []string
+	if si, ok := boundedStandIns[prop]; ok && !noReplay {
+		work, _ := os.MkdirTemp("", "govc-standin-")
+		rep := map[string]interface{}{"property": prop, "obligation": "bounded-stand-in/" + si.what, "kind": "bounded"}
+		if eng.runOracle(prop, filepath.Join("/verif/oracle", si.file), nil, rep, work) {
+			path := filepath.Join(replayDir, prop, "bounded_stand_in.json")
+			writeJSON(path, rep)
+			fmt.Printf("FAILED bounded-stand-in/%s [violated oracle] :: %s\n", si.what, si.note)
+			violationLines = append(violationLines, fmt.Sprintf("VIOLATION property=%s replay=%s", prop, path))
+			exit = 1
+			standInNotes = append(standInNotes, "bounded: "+si.note+" - VIOLATED on this tree")
+		} else {
+			standInNotes = append(standInNotes, "bounded: "+si.note+" - passed on this tree")
+		}
+		os.RemoveAll(work)
+	}
 	// thorough tier: cross-validation of contracts and engine against the running code.  With
 	// every obligation discharged, the property's executable oracle (several seeds) and the kept
 	// demonstration tests are run against the tree; a failing input found here is a violation
@@ -551,7 +569,7 @@ func runProperty(eng *Engine, prop, tier string, opts solveOpts, evidence, repla
 	}
 	assumedList = append(assumedList, propertyAssumptions[prop]...)
 	assumedList = append(assumedList,
-		"partial correctness: clauses hold whenever the function returns normally; absence of panics and termination are decided under C07",
+		"functional clauses are partial-correctness statements; the safety obligations (no panic, no out-of-range access, channel misuse) of the library functions in this cone are part of this check (see obligations_by_kind), those of functions outside it are decided under C07 (library) or the pipeline properties (applications); loop termination measures are decided under C07 and, for the week computation, under C06/C17",
 		"machine integers are treated as mathematical integers only after a no-wrap obligation has been discharged for the operation (int mode); bv-mode functions use exact bit-vector semantics")
 	cov := map[string]interface{}{
 		"obligations":           len(obls),
@@ -570,7 +588,7 @@ func runProperty(eng *Engine, prop, tier string, opts solveOpts, evidence, repla
 		"failed":                failedNames,
 		"known_findings_matched": nKnown,
 		"contract_files":        eng.lib.Files,
-		"bounded":               append(append([]string(nil), boundedNotes[prop]...), crossNotes...),
+		"bounded":               append(append(append([]string(nil), boundedNotes[prop]...), standInNotes...), crossNotes...),
 	}
 	ev := map[string]interface{}{
 		"property_id": prop,
@@ -626,3 +644,11 @@ func seedFromEnv() int {
 // per-property notes
 var propertyAssumptions = map[string][]string{}
 var boundedNotes = map[string][]string{}
+
+type standIn struct{ file, what, note string }
+
+// boundedStandIns: executable checks that stand in for assumed contracts of repository functions.
+var boundedStandIns = map[string]standIn{
+	"C18": {"C18.go.txt", "getKeysInAscendingOrder",
+		"the assumed contract of (*CircularQueue).getKeysInAscendingOrder (keys complete, distinct, ascending) is checked on the real function for every subset of a 7-key universe, and Add/GetMessages are compared with a reference model for capacities 1..6 up to 3*capacity+2 additions and under one adder and three readers (20000 additions)"},
+}
